@@ -714,9 +714,19 @@ class Interp:
                     out.append(self.qq(y, env))
             return JTuple(out, x.br)
         if isinstance(x, Lit):
-            q = [self.qq(y, env) for y in x.xs]
             if x.kind == "arr":
-                return JArray(q)
+                out = []
+                for y in x.xs:
+                    if isinstance(y, T) and not y.br and y.xs and isinstance(y.xs[0], Sym) and y.xs[0].name == "unquote" \
+                            and isinstance(y.xs[1], T) and y.xs[1].xs and y.xs[1].xs[0] == Sym("splice"):
+                        v, _ = self.ev(y.xs[1].xs[1], env)
+                        if not isinstance(v, (JArray, JTuple)):
+                            raise JErr(RT, (y.line, y.col))
+                        out.extend(v.xs)
+                    else:
+                        out.append(self.qq(y, env))
+                return JArray(out)
+            q = [self.qq(y, env) for y in x.xs]
             return (JTable if x.kind == "tab" else JStruct)(zip(q[0::2], q[1::2]))
         return self.quote(x)
 
